@@ -21,6 +21,18 @@ def seeded(U, rnd, quick):
                 s += "-" + str(rnd.choice([0, 1, 2, 10]))
             texts.add(s)
         jobs.append({"k": "matrix", "eco": "maven", "tag": "seeded", "texts": sorted(texts), "part": []})
+    # one base, every joiner x qualifier x number suffix: the pairs that differ only in how the group is attached. The
+    # all-zero bases always (their numeric items are trimmed away, so the group's place in the list is all that is left).
+    SUF = ("", "1", ".1", "-1", "2", "-0")
+    import random
+    rnd = random.Random("|".join(jobs[0]["texts"][:20]))     # own stream from here on (derived from the seeded draws, consuming none)
+    def family(bs):
+        return [b + j + rnd.choice([q, q, q.upper()]) + n for b in bs for j in ".-" for q in QUALS for n in SUF]
+    jobs.append({"k": "matrix", "eco": "maven", "tag": "seeded-base", "texts": sorted(set(["0", "0.0"] + family(["0", "0.0"]))), "part": []})
+    others = ["0.0.0", "00", "0.00", "1", "1.0", "1.0.0", "0.1", "2.0", "1.1", "10.0", "1.0.0.0"]
+    for r in range(1 if quick else 30):
+        bs = rnd.sample(others, 2)
+        jobs.append({"k": "matrix", "eco": "maven", "tag": "seeded-base", "texts": sorted(set(bs + family(bs))), "part": []})
     return jobs
 
 def check(run):
